@@ -152,5 +152,49 @@ class Hist:
                     hit.add(k)
         return hit
 
+    def twin_success_pids(self):
+        """pids in which two client actions on one task overlapped in time and both returned Ok
+        (the engine has no per-process lock: guard and write of an action are not atomic)"""
+        if hasattr(self, '_tsp'):
+            return self._tsp
+        by = collections.defaultdict(list)
+        for a in self.actions:
+            if a['ok']:
+                by[(a['pid'], a['tid'])].append((a['call'], a['seq']))
+        hit = set()
+        for k, l in by.items():
+            l.sort()
+            for (b1, e1), (b2, e2) in zip(l, l[1:]):
+                if b2 < e1:
+                    hit.add(k[0])
+        self._tsp = hit
+        return hit
+
+    def overlapping_action_pids(self):
+        """pids in which two client actions (any tasks) overlapped in time"""
+        if hasattr(self, '_oap'):
+            return self._oap
+        by = collections.defaultdict(list)
+        for a in self.actions:
+            by[a['pid']].append((a['call'], a['seq']))
+        hit = set()
+        for k, l in by.items():
+            l.sort()
+            for (b1, e1), (b2, e2) in zip(l, l[1:]):
+                if b2 < e1:
+                    hit.add(k)
+        self._oap = hit
+        return hit
+
+    def race_tag(self, pid):
+        """causal discriminator for findings that need a client/scheduler or client/client overlap"""
+        if pid in self.twin_success_pids():
+            return 'twin-success'
+        if pid in self.overlapping_action_pids():
+            return 'overlapping-actions'
+        if any(k[0] == pid for k in self.actions_during_exec()):
+            return 'action-during-exec'
+        return 'plain'
+
     def interleaving_signature(self):
         return digest([(e['t'], e.get('nid') or e.get('what') or e.get('action'), e.get('new') or e.get('state')) for e in self.R if e['t'] in ('state', 'emit', 'action')])
